@@ -272,6 +272,7 @@ func TestVerifKVReplay(t *testing.T) {
 				break
 			}
 		}
+		w.store.Close()
 	}
 }
 
